@@ -286,7 +286,7 @@ func runC14(env *Env, data map[string]any) *Outcome {
 			}
 			if arg != "" {
 				file := writeFile(env, "c14.klg", text)
-				res := runCLI(env, CLIOpts{Now: mkTime(2021, 3, 4, 12, 0)}, "total", "--decimal", "--no-style", "--no-warn", "--tag", arg, file)
+				res := runCLI(env, CLIOpts{Now: mkTime(2021, 3, 4, 12, 0)}, "total", "--decimal", "--no-style", "--no-warn", "--tag", strings.ReplaceAll(arg, ",", "\\,"), file) // kong splits a list flag at unescaped commas
 				o.Evals++
 				got := -1 << 40
 				for _, m := range reTotalLine.FindAllStringSubmatch(res.Stdout, -1) {
